@@ -508,6 +508,12 @@ func ruleTokens(c *Ctx) {
 		}
 		produced[e.tok] = true
 	}
+	// tokens the scanner was seen to answer when it was folded over the corpus of texts (whichever helper returns them)
+	if _, _, ok := c.lexVerdict(); ok {
+		for tok := range c.lexProduced {
+			produced[tok] = true
+		}
+	}
 	// tokens that come out of a rune -> token table instead of a return statement (decided by folding ScanFunc)
 	if lt, err := c.lexerTables(); err == nil {
 		for _, tok := range lt.runeToken {
@@ -550,6 +556,17 @@ func ruleLexMode(c *Ctx) {
 		return
 	}
 	name := fname(fn)
+	// the scanner driven over a corpus of texts by folding, the token sequences compared with the notation: when that
+	// decides, how ScanFunc is laid out (one function, stages, which helper answers which token) is decided with it
+	if problem, n, ok := c.lexVerdict(); ok {
+		c.site(1)
+		c.check(problem == "", name+"|corpus", c.pos(fn.Pos()), name, fmt.Sprintf("%d texts tokenised by folding ScanFunc over a modelled reader: every token, both modes, comments in every position, white space of every kind - each text gives the token sequence the notation says", n), name+": "+problem)
+		if problem == "" {
+			c.site(n - 1)
+			c.lexModeRest(fn, g, name)
+			return
+		}
+	}
 	emits := c.tokenEmissions(fn, byVal)
 	// 1. white space discarded before every token
 	c.site(1)
@@ -707,6 +724,12 @@ func ruleLexMode(c *Ctx) {
 		comment = stopsAtNL && rec
 	}
 	c.check(comment, name+"|comment", c.pos(fn.Pos()), name, "`;` discards up to the newline and scans the next token", "the `;` comment case is missing or no longer skips exactly to the end of the line before scanning the next token")
+	c.lexModeRest(fn, g, name)
+}
+
+// lexModeRest: the parts of LEXMODE that are decided on the rune domain (run terminators, exact run classes, no silent
+// end of input, the digit class, where runs start) and the mode setters.
+func (c *Ctx) lexModeRest(fn *ssa.Function, g *yaccGrammar, name string) {
 	// run terminators: a SYMBOL / METADATA run must stop at every rune that starts a token which may follow it
 	// (FOLLOW sets of the grammar) and at the comment introducer; white space is handled by the predicate itself
 	if lt, err := c.lexerTables(); err == nil {
